@@ -1485,6 +1485,14 @@ fn check(ctx: &Ctx) -> i32 {
         check_c_inner(&inner, l)
     });
 
+    // many arguments: 0 to 14 plain arguments (template scriptlets substitute {{1}}..{{9}}; a
+    // function-style scriptlet receives every argument of the rule)
+    ctx.par_range("c-many-arguments", 15, 1, |n, l| {
+        let args: Vec<String> = (1..=n).map(|k| format!("a{}", k)).collect();
+        let inner = if args.is_empty() { "fs".to_string() } else { format!("fs, {}", args.join(", ")) };
+        check_c_inner(&inner, l)
+    });
+
     // ---- (d) ----
     let nb = BODIES.len() as u64;
     ctx.bound("d_bodies", json!(BODIES));
